@@ -133,14 +133,22 @@ def families(L):
     return out
 
 
-def do_request(L, fam_of, r):
-    """One model request through the public recogniser API; returns the observation record."""
+def do_request(L, fam_of, r, shared=None):
+    """One model request through the public recogniser API; returns the observation record.
+    `shared`: a dict of long-lived recogniser objects, one per (family, options), reused for every later request
+    of the history (a request with an explicit culture code behaves the same on any recogniser object)."""
     fams = families(L)
     cls, optcls, _ = fams[fam_of[r['type']]]
     code = None if r['code'] == '<none>' else r['code']
     emit('call', req=r)
     try:
-        rec = cls(code, optcls(r['opt']) if 0 <= r['opt'] <= fams[fam_of[r['type']]][2] else r['opt'])
+        sk = (fam_of[r['type']], r['opt'])
+        if shared is not None and code is not None and sk in shared:
+            rec = shared[sk]
+        else:
+            rec = cls(code, optcls(r['opt']) if 0 <= r['opt'] <= fams[fam_of[r['type']]][2] else r['opt'])
+            if shared is not None and code is not None:
+                shared[sk] = rec
         m = rec.get_model(r['type'], code, r['fb'])
     except Exception as ex:
         emit('raise', exception=type(ex).__name__)
